@@ -492,9 +492,42 @@ def _call_nonnull(v, modname, cls, depth=0):
     return False
 
 
+def _sentinels(tree):
+    """Module-private sentinels: NAME = object() at module level, NAME used only in `is` / `is not` comparisons and
+    as a value that is assigned or returned."""
+    cache = getattr(tree, '_sentinels', None)
+    if cache is not None:
+        return cache
+    cands = set()
+    for s_ in tree.body:
+        if isinstance(s_, ast.Assign) and len(s_.targets) == 1 and isinstance(s_.targets[0], ast.Name) \
+                and isinstance(s_.value, ast.Call) and isinstance(s_.value.func, ast.Name) and s_.value.func.id == 'object' \
+                and not s_.value.args and not s_.value.keywords:
+            cands.add(s_.targets[0].id)
+    if cands:
+        par = {}
+        for n in ast.walk(tree):
+            for c in ast.iter_child_nodes(n):
+                par[id(c)] = n
+        for n in ast.walk(tree):
+            if isinstance(n, ast.Name) and n.id in cands and isinstance(n.ctx, ast.Load):
+                p_ = par.get(id(n))
+                ok = (isinstance(p_, ast.Compare) and all(isinstance(o, (ast.Is, ast.IsNot)) for o in p_.ops)) or \
+                    (isinstance(p_, (ast.Assign, ast.Return)) and p_.value is n)
+                if not ok:
+                    cands.discard(n.id)
+            elif isinstance(n, ast.Name) and n.id in cands and isinstance(n.ctx, ast.Store):
+                if not (isinstance(par.get(id(n)), ast.Assign) and par.get(id(n)) in tree.body):
+                    cands.discard(n.id)
+    tree._sentinels = cands
+    return cands
+
+
 def _known(v):
     """What is known about the value of expression v: ('const', value) | ('notnone',) | None"""
     cls = _CLS[0]
+    if isinstance(v, ast.Name) and _MOD[0] is not None and v.id in _sentinels(_MOD[0].tree):
+        return ('sentinel', v.id)
     if cls is not None and isinstance(v, ast.Attribute) and isinstance(v.value, ast.Name) \
             and v.value.id in ('self', 'cls', cls.name) \
             and any(isinstance(d, ast.FunctionDef) and d.name == v.attr for d in cls.body):
@@ -516,6 +549,10 @@ def _known(v):
         return None
     if isinstance(v, ast.Lambda):
         return ('truth', True)
+    if isinstance(v, ast.Call) and _MOD[0] is not None:
+        sent = _sentinels(_MOD[0].tree)
+        if sent and not any(isinstance(x, ast.Name) and x.id in sent for x in ast.walk(v)):
+            return ('call',)             # some value that is not a module-private sentinel
     return None
 
 
@@ -533,13 +570,22 @@ def _fold_test(test, name, k):
         elif k[0] == 'truth':
             r = k[1]
     elif isinstance(e, ast.Compare) and len(e.ops) == 1 and isinstance(e.left, ast.Name) and e.left.id == name \
+            and isinstance(e.comparators[0], ast.Name) and isinstance(e.ops[0], (ast.Is, ast.IsNot)) \
+            and _MOD[0] is not None and e.comparators[0].id in _sentinels(_MOD[0].tree):
+        if k[0] == 'sentinel':
+            r = (k[1] == e.comparators[0].id)
+        else:
+            r = False
+        if isinstance(e.ops[0], ast.IsNot):
+            r = not r
+    elif isinstance(e, ast.Compare) and len(e.ops) == 1 and isinstance(e.left, ast.Name) and e.left.id == name \
             and isinstance(e.comparators[0], ast.Constant):
         c = e.comparators[0].value
         op = e.ops[0]
         if isinstance(op, (ast.Is, ast.IsNot)) and c is None:
             if k[0] == 'const':
                 r = (k[1] is None)
-            elif k[0] in ('notnone', 'truth'):
+            elif k[0] in ('notnone', 'truth', 'sentinel'):
                 r = False
             if r is not None and isinstance(op, ast.IsNot):
                 r = not r
@@ -610,7 +656,9 @@ def _flag_use(rest):
             if isinstance(e, ast.Name):
                 nm = e.id
             elif isinstance(e, ast.Compare) and len(e.ops) == 1 and isinstance(e.left, ast.Name) \
-                    and isinstance(e.comparators[0], ast.Constant):
+                    and (isinstance(e.comparators[0], ast.Constant) or (
+                        isinstance(e.comparators[0], ast.Name) and _MOD[0] is not None
+                        and e.comparators[0].id in _sentinels(_MOD[0].tree))):
                 nm = e.left.id
             if nm is not None and nm not in _stores(rest[:j]):
                 return ('if', j, nm)
@@ -1027,9 +1075,26 @@ def dead_stores(func):
             loads.update(n.names)
     changed = [False]
 
+    captured = set()
+    for n in ast.walk(func):
+        if isinstance(n, _DEF) and n is not func:
+            for x in ast.walk(n):
+                if isinstance(x, ast.Name):
+                    captured.add(x.id)
+
     def blk(stmts, f):
-        out = [s for s in stmts if not (isinstance(s, ast.Assign) and len(s.targets) == 1 and isinstance(s.targets[0], ast.Name)
-                                        and s.targets[0].id not in loads and _pure_value(s.value))]
+        out = []
+        for i_, s in enumerate(stmts):
+            if isinstance(s, ast.Assign) and len(s.targets) == 1 and isinstance(s.targets[0], ast.Name) and _pure_value(s.value):
+                nm = s.targets[0].id
+                if nm not in loads:
+                    continue
+                nxt = stmts[i_ + 1] if i_ + 1 < len(stmts) else None
+                # a store the function leaves at once without reading it (left behind in a threaded tail)
+                if isinstance(nxt, ast.Return) and nm not in captured and not any(
+                        isinstance(x, ast.Name) and x.id == nm for x in ast.walk(nxt)):
+                    continue
+            out.append(s)
         if len(out) != len(stmts):
             return out or [ast.copy_location(ast.Pass(), stmts[0])]
         return None
